@@ -1,5 +1,6 @@
 import PyxModel.Sexp
 import PyxModel.Meta
+import Proofs.MetaState
 
 /-!
   driver commands of property C02 (also used by C09/C11/C16 through `decodeSchema`/`runOps`):
@@ -81,7 +82,7 @@ def observe (sc : Sch) (refattrs : List (Kind × String)) (s : State) : List Sex
   let links := list ((List.range sc.assocs.length).map fun i =>
     list [entries s.count (s.links i).src, entries s.count (s.links i).tgt])
   let refs := list (refattrs.map fun (k, a) =>
-    list ((s.pool k).map fun x => optNat (getAttr sc.assocs sc.attrs s ((s.count + 1) * ((sc.assocs.map (fun a => a.srcKeys.length)).sum + 2)) x a)))
+    list ((s.pool k).map fun x => optNat (getAttr sc.assocs sc.attrs s (driverFuel sc.assocs s) x a)))
   [pools, links, refs]
 
 def runOps (sc : Sch) (refattrs : List (Kind × String)) (ops : List Sexp) : Sexp :=
